@@ -32,6 +32,13 @@ def generate(tier, rng):
             for pre, post in (("", ""), ("a", ""), ("", "b"), ("a-", ".b"), ("5$-", "-z"), ("a$ ", ""), ("$", "$"), ("x=", "%")):
                 for dq in (True, False):
                     cases.append(mk("prog", pre, form, "out%d" % oi, post, dq, out, {"gen": "e", "k": (oi, form, pre, post, dq)}))
+    # substitutions in unusual places: carried by an alias value, used on a line that has no substitution of its own
+    aenv = gens.env_field(vars={"A": "va"}, exported={"HOME": "/h"}, aliases={"s1": "prog $(o0)", "s2": "prog `o1` x", "s3": 'prog "a$(o2)b"'},
+                          cmds={"o%d" % i: o for i, o in enumerate(OUTS)})
+    for al in ("s1", "s2", "s3"):
+        for rest in ([], [("", "z")], [("'", "$(o3)")], [("", "|"), ("", al)]):
+            cases.append(Case("xall", [aenv, toks([("", al)] + rest)], {"gen": "al", "k": (al, toks(rest))}))
+            cases.append(Case("plan", [aenv, hx(al + "".join(" " + (q + t + q) for q, t in rest))], {"gen": "al", "k": (al, "line", toks(rest))}))
     r = rng.fork("c11")
     n = 3000 if tier == "quick" else 40000
     outs = {"o%d" % i: o for i, o in enumerate(OUTS)}
@@ -141,13 +148,20 @@ def funcap(tier, rng, cicada):
         for c_ in range(1, g.cond + 1):
             seq["cond %d" % c_] = [0] * r.below(3) + [r.choice([1, 2])]
         w = " ".join(c14.wire(b))
+        extra = g.cond
         for n_ in range(1, g.n + 1):
-            body = body.replace("stage %d 0\n" % n_, "stage %d 0 p\n" % n_)
-            seq["stage %d 0 p" % n_] = [0]
-            w = w.replace(hx("stage %d 0" % n_), hx("stage %d 0 p" % n_))
+            new = "stage %d 0 p" % n_
+            seq[new] = [0]
+            if r.below(3) == 0:
+                # a LIST as a line of the body: a silent pipeline decides whether the printing one runs (`cond 7 && stage 3 0 p`)
+                extra += 1
+                seq["cond %d L" % extra] = [r.choice([0, 1, 2])]                 # (`L`: a pipeline of a list line, not a block head)
+                new = "cond %d L %s %s" % (extra, r.choice(["&&", "||"]), new)
+            body = body.replace("stage %d 0\n" % n_, new + "\n")
+            w = w.replace(hx("stage %d 0" % n_), hx(new))
         seqf = ",".join(hx(k) + ":" + ".".join(str(x) for x in v) for k, v in seq.items()) or "[]"
         c = Case("fcap", [gens.env_field(exported={"HOME": "/h"}), hx(body), ",".join(hx(x) for x in ["cicada", "s.sh"]), seqf, "[]", w],
-                 {"gen": "p", "t": body, "seq": seq, "k": ("fcap", w)})
+                 {"gen": "p", "t": body, "seq": seq, "k": ("fcap", w), "heads": g.cond})
         c.id = "f%d" % i
         cases.append(c)
     sb = proc.Sandbox("c11f")
@@ -174,7 +188,7 @@ def funcap(tier, rng, cicada):
                 if not ln:
                     continue
                 name, st = ln.rsplit(":", 1)
-                text = name if name.startswith("cond ") else "stage %s %s p" % (name, st)
+                text = (name + (" L" if int(name.split()[1]) > c.meta["heads"] else "")) if name.startswith("cond ") else "stage %s %s p" % (name, st)
                 out.append("%s:%s:" % (hx(text), st))
         got = "NOT-RUN"
         if os.path.exists(alog):
